@@ -79,7 +79,7 @@ func famProjection(mode string, args []string) error {
 	})
 }
 
-func prBuildResult(r *prRes, i int) (*benchfmt.Result, error) {
+func prBuildResult(r *prRes, i int, named map[string]bool) (*benchfmt.Result, error) {
 	cfg, err := fsMapExpect(r.Cfg)
 	if err != nil {
 		return nil, err
@@ -94,6 +94,12 @@ func prBuildResult(r *prRes, i int) (*benchfmt.Result, error) {
 	for _, k := range keys {
 		if v, ok := cfg[k]; ok {
 			res.Config = append(res.Config, benchfmt.Config{Key: k, Value: []byte(v), File: true})
+		} else if (i+int(k[1]))%2 == 0 && !named[k] {
+			// absent from the FILE configuration, present as tool-internal configuration (as
+			// Result.SetConfig leaves it): never part of .config, whatever earlier results had.
+			// (Not for keys some projection names by itself: a plain key reads internal
+			// configuration too - that is how .file works.)
+			res.Config = append(res.Config, benchfmt.Config{Key: k, Value: []byte("internal"), File: false})
 		}
 	}
 	name := r.Base
@@ -112,8 +118,28 @@ func prBuildResult(r *prRes, i int) (*benchfmt.Result, error) {
 	return res, nil
 }
 
+// prDashBases spells the model's base names with a dash inside ("N1" -> "R-o1"): names like
+// Read-only/x=s1-4, whose first dash comes before the last slash.  Order relations of the
+// model's tokens are preserved ("" < "*" < N1 < N2 becomes "" < "*" < R-o1 < R-o2).
+func prDashBases(c *prCase) {
+	r := strings.NewReplacer("N1", "R-o1", "N2", "R-o2")
+	for i := range c.Stream {
+		c.Stream[i].Base = r.Replace(c.Stream[i].Base)
+	}
+	for pi := range c.Proj {
+		for i := range c.Proj[pi].Vals {
+			for j := range c.Proj[pi].Vals[i] {
+				c.Proj[pi].Vals[i][j] = r.Replace(c.Proj[pi].Vals[i][j])
+			}
+		}
+	}
+}
+
 func prReplay(c *prCase, focus string) Verdict {
 	rng := rand.New(rand.NewSource(seed()*31337 + int64(c.ID)))
+	if c.ID%2 == 1 {
+		prDashBases(c)
+	}
 	var parser benchproc.ProjectionParser
 	projs := make([]*benchproc.Projection, len(c.Proj))
 	filters := make([]*benchproc.Filter, len(c.Proj))
@@ -147,9 +173,17 @@ func prReplay(c *prCase, focus string) Verdict {
 	for i := range st {
 		st[i].ids = map[benchproc.Key]int{}
 	}
+	named := map[string]bool{}
+	for _, p := range c.Proj {
+		for _, k := range []string{"c1", "c2", "c3"} {
+			if strings.Contains(prMenu[p.ID], k) {
+				named[k] = true
+			}
+		}
+	}
 	results := make([]*benchfmt.Result, len(c.Stream))
 	for i := range c.Stream {
-		r, err := prBuildResult(&c.Stream[i], i)
+		r, err := prBuildResult(&c.Stream[i], i, named)
 		if err != nil {
 			return fail("badcase", "%v", err)
 		}
